@@ -35,6 +35,18 @@
 //!                           `E[(pos / rp) mod |E|]`, E = [traded (if t < k), U1 .. Ux]. A `strat` that trades a
 //!                           tracked instrument is `bad-op` (harness and both drivers). The dataset is ONE stream:
 //!                           every observation below covers ALL instruments and ALL exchanges' markers
+//!   `cfg x o r u`           (after `tracked`, before the dataset op) SET-UP SHAPE of the backtests: `x` (1..3) TRADED exchanges
+//!                           T0 = BinanceSpot, T1 = Bitfinex, T2 = Coinbase, each with its own mock execution link and the
+//!                           same initial balances per asset; the `k - t` traded instruments are spread block-wise over
+//!                           them (instrument `j` on T(j*x / (k-t)); needs x <= k - t, else the dataset op is `bad-op`);
+//!                           `o` = 1: the `executions` list is given in REVERSE exchange-index order; `r` = 1: backtest `b`
+//!                           gets risk_free_return 0.05 / 0 / -0.02 (b mod 3), `r` = 2: also every `BacktestArgsDynamic::id`
+//!                           is `dup`; `u` bit 0: ONE `Arc<BacktestArgsConstant>` serves every call of the case (all `run`
+//!                           ops, concurrent and alone), bit 1: a single backtest goes through `run_backtests` (not
+//!                           `backtest`). `own` then also demands the summary's id, risk_free_return and Sharpe / Sortino /
+//!                           Calmar ratios to be those of THIS backtest's arguments over its own feed. `R` = marker of T0.
+//!                           `run` prints one more line per backtest, `acct b 1`: every account event its engine processed
+//!                           comes from its own execution side (see `account_events_own`)
 //!
 //! Observations of `run` (per backtest `b`):
 //!   `seen b ids...`         market stream events processed by b's engine, in order: the id of every Item
@@ -128,6 +140,47 @@ use vh::{engine_util::time_ms, *};
 const EXCHANGE: ExchangeId = ExchangeId::BinanceSpot;
 /// exchanges whose instruments are tracked but not traded (`tracked t x`): no `ExecutionConfig` is given for them
 const UNTRADED: [ExchangeId; 2] = [ExchangeId::Okx, ExchangeId::Kraken];
+
+/// traded exchanges of a `cfg x ..` case, in `ExchangeIndex` order (`IndexedInstruments` sorts exchanges and instruments:
+/// BinanceSpot < Bitfinex < Coinbase < Kraken < Okx); `TRADED[0]` = `EXCHANGE`
+const TRADED: [ExchangeId; 3] = [ExchangeId::BinanceSpot, ExchangeId::Bitfinex, ExchangeId::Coinbase];
+
+/// `cfg x o r u`: set-up shape of the backtests of a case (see the header); `Cfg::default()` = the shape of every other case
+#[derive(Debug, Clone, Copy, PartialEq, Eq)]
+struct Cfg {
+    on: bool,
+    /// number of TRADED exchanges (each with its own mock execution link)
+    x: usize,
+    /// `executions` listed in reverse exchange-index order
+    rev: bool,
+    /// 0: risk_free_return 0, ids `b<b>`; 1: risk_free_return differs per backtest; 2: as 1 and every id is `dup`
+    r: u8,
+    /// bit 0: ONE `Arc<BacktestArgsConstant>` is shared by every `run_backtests` / `backtest` call of the case;
+    /// bit 1: a single backtest goes through `run_backtests` too
+    u: u8,
+}
+
+impl Default for Cfg {
+    fn default() -> Self {
+        Cfg { on: false, x: 1, rev: false, r: 0, u: 0 }
+    }
+}
+
+/// exchange of instrument `j` of `k`: the `k - t` traded instruments are spread block-wise over the `x` traded exchanges
+/// (instrument `j` on `TRADED[j * x / (k - t)]`, so that the sorted index order is the instrument order), the last `t` live
+/// on the untraded exchanges as `inst_exchange_no` says
+fn inst_exchange(j: usize, k: usize, tracked: (usize, usize), x: usize) -> ExchangeId {
+    if j < k - tracked.0 { TRADED[j * x / (k - tracked.0)] } else { exchange_of(inst_exchange_no(j, k, tracked)) }
+}
+
+/// risk-free return and id of backtest `b` under `cfg .. r ..`
+fn rfr_of(cfg: Cfg, b: usize) -> Decimal {
+    if cfg.r == 0 { Decimal::ZERO } else { [Decimal::new(5, 2), Decimal::ZERO, Decimal::new(-2, 2)][b % 3] }
+}
+
+fn id_of(cfg: Cfg, b: usize) -> String {
+    if cfg.r == 2 { "dup".to_string() } else { format!("b{b}") }
+}
 
 /// 0 = the traded exchange, 1.. = `UNTRADED`
 fn exchange_of(no: u8) -> ExchangeId {
@@ -412,7 +465,8 @@ impl AlgoStrategy for PlanStrategy {
             sink.reqs.push(format!("{}@{}", item.text, fmt_dec(price)));
             opens.push(OrderRequestOpen {
                 key: OrderKey {
-                    exchange: ExchangeIndex(0),
+                    // the exchange of the instrument (index 0 unless `cfg x ..` spreads the traded instruments)
+                    exchange: state.instruments.instrument_index(&InstrumentIndex(item.inst)).instrument.exchange,
                     instrument: InstrumentIndex(item.inst),
                     strategy: self.id.clone(),
                     cid: ClientOrderId::new(format!("c{}", *next)),
@@ -504,6 +558,8 @@ struct Setup {
     long: bool,
     /// `tracked t x`: the last `t` instruments live on `x` exchanges without an execution link ((0, 0): none)
     tracked: (usize, usize),
+    /// `cfg x o r u`
+    cfg: Cfg,
 }
 
 /// The data source handed to `backtest()`: the repo's `MarketDataInMemory` (clock from its `new`,
@@ -552,10 +608,10 @@ fn asset_name(j: usize) -> String {
     format!("a{j}")
 }
 
-fn build_instruments(k: usize, tracked: (usize, usize)) -> IndexedInstruments {
+fn build_instruments(k: usize, tracked: (usize, usize), x: usize) -> IndexedInstruments {
     let mut builder = IndexedInstruments::builder();
     for j in 0..k {
-        let exchange = exchange_of(inst_exchange_no(j, k, tracked));
+        let exchange = inst_exchange(j, k, tracked, x);
         builder = builder.add_instrument(Instrument::spot(
             exchange,
             format!("{}_{}_usdt", exchange.as_str(), asset_name(j)),
@@ -564,7 +620,15 @@ fn build_instruments(k: usize, tracked: (usize, usize)) -> IndexedInstruments {
             None,
         ));
     }
-    builder.build()
+    let built = builder.build();
+    if x > 1 {
+        // the harness addresses instrument `j` as `InstrumentIndex(j)`: the sorted index must keep the traded ones in place
+        for j in 0..k - tracked.0 {
+            let i = &built.instruments()[j].value;
+            assert!(i.exchange.value == inst_exchange(j, k, tracked, x) && i.name_exchange.name().as_str() == format!("{}USDT", asset_name(j).to_uppercase()), "instrument order");
+        }
+    }
+    built
 }
 
 fn initial_balances(instruments: &IndexedInstruments) -> Vec<(String, Decimal)> {
@@ -586,12 +650,12 @@ fn args_constant(
     // an execution link (mock exchange) for the traded exchange only: instruments of `UNTRADED` exchanges are tracked,
     // not traded; when every instrument is tracked the `executions` list is empty
     let traded = s.instruments.exchanges().iter().any(|e| e.value == EXCHANGE);
-    let executions = if !traded { vec![] } else { vec![ExecutionConfig::Mock(MockExecutionConfig {
-        mocked_exchange: EXCHANGE,
+    let mock = |exchange: ExchangeId| ExecutionConfig::Mock(MockExecutionConfig {
+        mocked_exchange: exchange,
         initial_state: UnindexedAccountSnapshot {
-            exchange: EXCHANGE,
+            exchange,
             balances: s.instruments.assets().iter().zip(balances.iter())
-                .filter(|(a, _)| a.value.exchange == EXCHANGE)
+                .filter(|(a, _)| a.value.exchange == exchange)
                 .map(|(_, b)| b)
                 .map(|(name, amount)| AssetBalance {
                     asset: AssetNameExchange::new(name.clone()),
@@ -603,7 +667,12 @@ fn args_constant(
         },
         latency_ms: s.latency_ms,
         fees_percent: Decimal::ZERO,
-    })] };
+    });
+    // one mock link per traded exchange (`cfg x ..`: x of them), listed in exchange-index order or (`cfg . 1 ..`) reversed
+    let mut executions: Vec<ExecutionConfig> = if !traded { vec![] } else { TRADED[..s.cfg.x].iter().map(|e| mock(*e)).collect() };
+    if s.cfg.rev {
+        executions.reverse();
+    }
     let engine_state = EngineStateBuilder::new(&s.instruments, RecGlobal::default(), RecInstr::default)
         .time_engine_start(time_ms(0))
         .trading_state(TradingState::Enabled)
@@ -635,8 +704,8 @@ fn dynamic(
     sink: Arc<Mutex<Sink>>,
 ) -> BacktestArgsDynamic<PlanStrategy, DefaultRiskManager<State>> {
     BacktestArgsDynamic {
-        id: smol_str::SmolStr::new(format!("b{b}")),
-        risk_free_return: Decimal::ZERO,
+        id: smol_str::SmolStr::new(id_of(s.cfg, b)),
+        risk_free_return: rfr_of(s.cfg, b),
         strategy: PlanStrategy::new(s.plans[b % s.plans.len()].clone(), sink),
         risk: DefaultRiskManager::default(),
     }
@@ -687,10 +756,20 @@ fn summary_text(s: &BacktestSummary<Daily>) -> String {
     format!("pnl[{pnl}] bal[{bal}]")
 }
 
+/// the figures of a summary that depend on the risk-free return: Sharpe / Sortino / Calmar ratio per instrument
+fn ratios_text(s: &BacktestSummary<Daily>) -> String {
+    s.trading_summary
+        .instruments
+        .values()
+        .map(|t| format!("{}/{}/{}", t.sharpe_ratio.value, t.sortino_ratio.value, t.calmar_ratio.value))
+        .collect::<Vec<_>>()
+        .join(",")
+}
+
 /// Replays a feed observed by a backtest's engine (market ids + account events, in the observed
 /// order) synchronously through a fresh real Engine built from the same shared arguments, and
 /// returns the summary text and final positions.
-fn replay_feed(s: &Setup, sink: &Sink) -> (String, Vec<String>, Vec<String>) {
+fn replay_feed(s: &Setup, sink: &Sink, rfr: Decimal) -> (String, Vec<String>, Vec<String>, String) {
     let constant = args_constant(s);
     let replay_sink = Arc::new(Mutex::new(Sink::default()));
     // the strategy's requests go to a channel nobody serves: only the engine-side state matters
@@ -698,7 +777,7 @@ fn replay_feed(s: &Setup, sink: &Sink) -> (String, Vec<String>, Vec<String>) {
         let (tx, rx) = barter_integration::channel::mpsc_unbounded();
         (
             MultiExchangeTxMap::from_iter(
-                s.instruments.exchanges().iter().map(|e| (e.value, (e.value == EXCHANGE).then(|| tx.clone()))),
+                s.instruments.exchanges().iter().map(|e| (e.value, TRADED.contains(&e.value).then(|| tx.clone()))),
             ),
             vec![rx],
         )
@@ -726,16 +805,106 @@ fn replay_feed(s: &Setup, sink: &Sink) -> (String, Vec<String>, Vec<String>) {
     }
     let summary = BacktestSummary {
         id: "replay".into(),
-        risk_free_return: Decimal::ZERO,
+        risk_free_return: rfr,
         trading_summary: engine
-            .trading_summary_generator(Decimal::ZERO)
+            .trading_summary_generator(rfr)
             .generate(Daily),
     };
     (
         summary_text(&summary),
         snapshot_positions(&engine.state),
         snapshot_balances(&engine.state),
+        ratios_text(&summary),
     )
+}
+
+/// `acct b 1` (after `cfg`): every account event the engine processed is one of THIS backtest's own execution side -
+/// each initial snapshot is that of a configured traded exchange (its assets, its configured balances), every fill is the
+/// fill of one of the strategy's own requests (instrument, side, quantity, price), and no affordable request (quantity
+/// below 5000: the balances never run out) came back as failed. Which of them were processed before `Shutdown` is the
+/// scheduler's (known finding); that none is foreign or misrouted is not.
+fn account_events_own(s: &Setup, sink: &Sink) -> bool {
+    let balances = initial_balances(&s.instruments);
+    let mut expected_snaps: Vec<Vec<String>> = TRADED[..s.cfg.x]
+        .iter()
+        .map(|e| {
+            let mut v: Vec<String> = s.instruments.assets().iter().zip(balances.iter())
+                .filter(|(a, _)| a.value.exchange == *e)
+                .map(|(a, (_, amount))| format!("{}={}", a.key.index(), fmt_dec(*amount)))
+                .collect();
+            v.sort();
+            v
+        })
+        .collect();
+    // requests not yet matched by a fill: `i:s:q@p`
+    let mut open: Vec<String> = sink.reqs.iter().map(|r| r.split_once(':').map(|(_, rest)| rest.to_string()).unwrap_or_default()).collect();
+    for tag in account_tags(&sink.log) {
+        if let Some(body) = tag.strip_prefix("snap[").and_then(|t| t.strip_suffix(']')) {
+            let mut v: Vec<String> = body.split(',').filter(|t| !t.is_empty()).map(|t| t.to_string()).collect();
+            v.sort();
+            match expected_snaps.iter().position(|e| *e == v) {
+                Some(i) => {
+                    expected_snaps.swap_remove(i);
+                }
+                None => return false,
+            }
+        } else if let Some(body) = tag.strip_prefix("trade[").and_then(|t| t.strip_suffix(']')) {
+            match open.iter().position(|r| r == body) {
+                Some(i) => {
+                    open.swap_remove(i);
+                }
+                None => return false,
+            }
+        } else if let Some(body) = tag.strip_prefix("ord[c").and_then(|t| t.strip_suffix(']')) {
+            let Some((n, state)) = body.split_once(':') else { return false };
+            let Some(req) = n.parse::<usize>().ok().and_then(|n| sink.reqs.get(n)) else { return false };
+            let qty: u64 = req.split('@').next().and_then(|r| r.rsplit(':').next()).and_then(|q| q.parse().ok()).unwrap_or(0);
+            if state != "filled" && state != "active" && qty < 5000 {
+                return false;
+            }
+        } else if tag == "acc-reconnecting" || tag.starts_with("cancel[") {
+            return false;
+        }
+    }
+    true
+}
+
+/// Are the single-asset balance notices of a run's feed those its OWN execution side sends for its OWN requests?
+/// The mock exchange works a backtest's requests off in request order, debits the quote asset of a funded buy
+/// (`q * p`, fees are 0 here) or the base asset of a funded sell (`q`) and announces that asset's new total: the
+/// legitimate `bal[asset=total]` tags are therefore a function of the request list. A balance moved by ANOTHER
+/// backtest's fill (a shared ledger) is not among them.
+fn balance_events_own(s: &Setup, sink: &Sink) -> bool {
+    let mut totals: Vec<Decimal> = initial_balances(&s.instruments).into_iter().map(|(_, a)| a).collect();
+    let mut legit: Vec<String> = Vec::new();
+    for r in &sink.reqs {
+        // `t:i:s:q@p`
+        let Some((_, rest)) = r.split_once(':') else { return false };
+        let Some((head, price)) = rest.split_once('@') else { return false };
+        let parts: Vec<&str> = head.split(':').collect();
+        if parts.len() != 3 {
+            return false;
+        }
+        let (Ok(i), Ok(q), Ok(p)) = (parts[0].parse::<usize>(), parts[2].parse::<Decimal>(), price.parse::<Decimal>()) else { return false };
+        let Some(inst) = s.instruments.instruments().get(i) else { return false };
+        let (asset, cost) = if parts[1] == "B" { (inst.value.underlying.quote.index(), q * p) } else { (inst.value.underlying.base.index(), q) };
+        let Some(total) = totals.get_mut(asset) else { return false };
+        if *total >= cost {
+            *total -= cost;
+            legit.push(format!("bal[{}={}]", asset, fmt_dec(*total)));
+        }
+    }
+    for tag in account_tags(&sink.log) {
+        if tag.starts_with("bal[") {
+            match legit.iter().position(|t| *t == tag) {
+                Some(i) => {
+                    legit.swap_remove(i);
+                }
+                None => return false,
+            }
+        }
+    }
+    true
 }
 
 fn ids(v: &[u32]) -> String {
@@ -770,7 +939,7 @@ fn market_recs(log: &[Rec]) -> Vec<Rec> {
 
 /// One event of a `longdata n k rp ro pm tm` dataset: a function of its position alone (the Lean driver's
 /// `Backtest.genEv` is the same formula).
-fn long_event(pos: usize, k: usize, rp: usize, ro: usize, pm: usize, tm: usize, tracked: (usize, usize)) -> MarketStreamEvent<InstrumentIndex, DataKind> {
+fn long_event(pos: usize, k: usize, rp: usize, ro: usize, pm: usize, tm: usize, tracked: (usize, usize), x: usize) -> MarketStreamEvent<InstrumentIndex, DataKind> {
     if rp > 0 && pos % rp == ro {
         // the exchanges of the dataset: the traded one (if it has an instrument), then U1 .. Ux; markers take turns
         let first = if tracked.0 < k { 0 } else { 1 };
@@ -783,7 +952,7 @@ fn long_event(pos: usize, k: usize, rp: usize, ro: usize, pm: usize, tm: usize, 
     MarketStreamEvent::Item(MarketEvent {
         time_exchange: te,
         time_received: te,
-        exchange: exchange_of(inst_exchange_no(inst, k, tracked)),
+        exchange: inst_exchange(inst, k, tracked, x),
         instrument: InstrumentIndex(inst),
         kind: DataKind::Trade(PublicTrade {
             id: pos.to_string(),
@@ -851,10 +1020,24 @@ struct RunResult {
     summaries: Vec<String>,
     /// `BacktestSummary::id` of each returned summary, in the order returned
     ids: Vec<String>,
+    /// `BacktestSummary::risk_free_return` and the ratios computed with it
+    rfrs: Vec<Decimal>,
+    ratios: Vec<String>,
 }
 
+type Constant = Arc<BacktestArgsConstant<PacedData, Daily, State>>;
+
 fn run_concurrent(s: &Setup, bs: &[usize], workers: usize) -> RunResult {
-    let constant = args_constant(s);
+    run_concurrent_with(s, bs, workers, None)
+}
+
+/// `shared`: the `Arc`'d constant arguments of an earlier call, used again (`cfg .. u` bit 0)
+fn run_concurrent_with(s: &Setup, bs: &[usize], workers: usize, shared: Option<&Constant>) -> RunResult {
+    let constant = match shared {
+        Some(c) => Arc::clone(c),
+        None => args_constant(s),
+    };
+    let single_through_batch = s.cfg.u & 2 != 0;
     let sinks: Vec<Arc<Mutex<Sink>>> = bs.iter().map(|_| Arc::new(Mutex::new(Sink::default()))).collect();
     let dynamics: Vec<_> = bs
         .iter()
@@ -864,7 +1047,7 @@ fn run_concurrent(s: &Setup, bs: &[usize], workers: usize) -> RunResult {
     let rt = runtime(workers, s.gap_ms.is_some());
     let multi = rt
         .block_on(async move {
-            if dynamics.len() == 1 {
+            if dynamics.len() == 1 && !single_through_batch {
                 // the single-backtest entry point
                 let d = dynamics.into_iter().next().unwrap();
                 backtest(constant, d).await.map(|s| vec![s])
@@ -878,6 +1061,8 @@ fn run_concurrent(s: &Setup, bs: &[usize], workers: usize) -> RunResult {
         sinks: sinks.iter().map(|s| s.lock().unwrap().clone()).collect(),
         summaries: multi.iter().map(summary_text).collect(),
         ids: multi.iter().map(|m| m.id.to_string()).collect(),
+        rfrs: multi.iter().map(|m| m.risk_free_return).collect(),
+        ratios: multi.iter().map(ratios_text).collect(),
     }
 }
 
@@ -912,11 +1097,29 @@ fn run() {
     run_cases(|case, lines| {
         let mut setup: Option<Setup> = None;
         let mut tracked: (usize, usize) = (0, 0);
+        let mut cfg = Cfg::default();
+        // `cfg .. u` bit 0: the constant arguments every call of the case shares (built at the first `run`)
+        let mut shared: Option<Constant> = None;
         for op in &case.ops {
             lines.push("@".into());
             match op[0].as_str() {
+                "cfg" => {
+                    // (after `tracked`, before the dataset op) the set-up shape of the backtests
+                    setup = None;
+                    shared = None;
+                    let v: Vec<usize> = op[1..].iter().filter_map(|t| t.parse().ok()).collect();
+                    if op.len() != 5 || v.len() != 4 || v[0] < 1 || v[0] > TRADED.len() || v[1] > 1 || v[2] > 2 || v[3] > 3 {
+                        cfg = Cfg::default();
+                        lines.push("bad-op".into());
+                        continue;
+                    }
+                    cfg = Cfg { on: true, x: v[0], rev: v[1] == 1, r: v[2] as u8, u: v[3] as u8 };
+                    lines.push(format!("cfg {} {} {} {}", v[0], v[1], v[2], v[3]));
+                }
                 "tracked" => {
                     setup = None;
+                    shared = None;
+                    cfg = Cfg::default();
                     let v: Vec<usize> = op[1..].iter().filter_map(|t| t.parse().ok()).collect();
                     if op.len() != 3 || v.len() != 2 || v[0] < 1 || v[1] < 1 || v[1] > v[0] || v[1] > UNTRADED.len() {
                         tracked = (0, 0);
@@ -941,14 +1144,16 @@ fn run() {
                             _ => None,
                         }
                     };
+                    shared = None;
                     if tracked.0 > k
+                        || (cfg.on && cfg.x > k - tracked.0)
                         || op[2..].iter().filter_map(|t| marker_no(t)).any(|e| if e == 0 { tracked.0 == k && k > 0 } else { e as usize > tracked.1 })
                     {
                         setup = None;
                         lines.push("bad-op".into());
                         continue;
                     }
-                    let instruments = build_instruments(k, tracked);
+                    let instruments = build_instruments(k, tracked, cfg.x);
                     let events: Vec<_> = op[2..]
                         .iter()
                         .enumerate()
@@ -1010,7 +1215,7 @@ fn run() {
                             MarketStreamEvent::Item(MarketEvent {
                                 time_exchange: te,
                                 time_received: te,
-                                exchange: exchange_of(inst_exchange_no(i, k, tracked)),
+                                exchange: inst_exchange(i, k, tracked, cfg.x),
                                 instrument: InstrumentIndex(i),
                                 kind,
                             })
@@ -1026,6 +1231,7 @@ fn run() {
                         gap_ms,
                         long: false,
                         tracked,
+                        cfg,
                     });
                 }
                 "longdata" => {
@@ -1033,15 +1239,16 @@ fn run() {
                     let v: Vec<usize> = op[1..].iter().map(|t| t.parse().expect("number")).collect();
                     let (n, k, rp, ro, pm, tm) = (v[0], v[1], v[2], v[3], v[4], v[5]);
                     assert!(n >= 1 && k >= 1 && pm >= 1 && (rp == 0 || ro < rp), "longdata parameters");
-                    if tracked.0 > k {
+                    shared = None;
+                    if tracked.0 > k || (cfg.on && cfg.x > k - tracked.0) {
                         setup = None;
                         lines.push("bad-op".into());
                         continue;
                     }
-                    let events: Vec<_> = (0..n).map(|pos| long_event(pos, k, rp, ro, pm, tm, tracked)).collect();
+                    let events: Vec<_> = (0..n).map(|pos| long_event(pos, k, rp, ro, pm, tm, tracked, cfg.x)).collect();
                     lines.push(format!("longdata {} {}", k, events.len()));
                     setup = Some(Setup {
-                        instruments: build_instruments(k, tracked),
+                        instruments: build_instruments(k, tracked, cfg.x),
                         n_events: events.len(),
                         events: Arc::new(events),
                         plans: vec![],
@@ -1049,6 +1256,7 @@ fn run() {
                         gap_ms: None,
                         long: true,
                         tracked,
+                        cfg,
                     });
                 }
                 "strat" => {
@@ -1104,7 +1312,11 @@ fn run() {
                         lines.push("panic".into());
                         continue;
                     }
-                    let conc = run_concurrent(s, &bs, w);
+                    if s.cfg.u & 1 != 0 && shared.is_none() {
+                        shared = Some(args_constant(s));
+                    }
+                    let shared = shared.as_ref().filter(|_| s.cfg.u & 1 != 0);
+                    let conc = run_concurrent_with(s, &bs, w, shared);
                     for b in 0..n {
                         let sink = &conc.sinks[b];
                         let seen = market_recs(&sink.log);
@@ -1134,9 +1346,17 @@ fn run() {
                             lines.push(format!("reqs {b} {}", sink.reqs.join(" ")));
                         }
                         // summary is a function of this engine's own feed
-                        let (rs, rpos, rbal) = replay_feed(s, sink);
-                        let own = rs == conc.summaries[b] && rpos == sink.positions && rbal == sink.balances;
+                        let (rs, rpos, rbal, rratios) = replay_feed(s, sink, rfr_of(s.cfg, b));
+                        // ... and of THIS backtest's dynamic arguments: its id, its risk-free return and the ratios computed with it
+                        let own = rs == conc.summaries[b] && rpos == sink.positions && rbal == sink.balances
+                            && conc.ids[b] == id_of(s.cfg, b) && conc.rfrs[b] == rfr_of(s.cfg, b) && rratios == conc.ratios[b];
+                        if !own && verbose {
+                            lines.push(format!("# own b={b}: summary {} | replay {rs}; ratios {} | replay {rratios}; id {} rfr {}", conc.summaries[b], conc.ratios[b], conc.ids[b], conc.rfrs[b]));
+                        }
                         lines.push(format!("own {b} {}", own as u8));
+                        if s.cfg.on {
+                            lines.push(format!("acct {b} {}", account_events_own(s, sink) as u8));
+                        }
                         // alone: on the same kind of runtime, on a current-thread and on a 4-worker
                         // runtime (the property quantifies over thread counts and interleavings)
                         let mut shapes = vec![w, 0, 4];
@@ -1152,7 +1372,7 @@ fn run() {
                         let mut explained = true;
                         let mut last = None;
                         for shape in shapes {
-                            let alone = run_concurrent(s, &[b], shape);
+                            let alone = run_concurrent_with(s, &[b], shape, shared);
                             let a = &alone.sinks[0];
                             let same_seen = market_recs(&a.log) == seen && a.inst == sink.inst && a.reqs == sink.reqs && a.h == sink.h;
                             // fills / final positions / balances / realised PnL as the engine reports them
@@ -1178,7 +1398,16 @@ fn run() {
                                         None => false,
                                     })
                                 };
-                                if !same_seen || !related {
+                                // ... or, when BOTH runs were cut at different points inside one fill's three responses
+                                // (neither set contains the other: seen under load on long datasets), every account event
+                                // of either run must be one its OWN execution side sends for its OWN requests, balances
+                                // with the amounts its own fills leave (`account_events_own`, `balance_events_own`)
+                                // (debug knob: C20_NO_RELATED=1 judges by ownership alone - used to validate `own_both` itself)
+                                let related = related && std::env::var_os("C20_NO_RELATED").is_none();
+                                let own_both = || {
+                                    account_events_own(s, sink) && balance_events_own(s, sink) && account_events_own(s, a) && balance_events_own(s, a)
+                                };
+                                if !same_seen || !(related || own_both()) {
                                     explained = false;
                                 }
                             }
@@ -1518,6 +1747,89 @@ fn gen_tracked_case(out: &mut Out, rng: &mut Rng, id: &str, c: usize, runs: &[(u
     }
 }
 
+/// SET-UP SHAPES (cases `G<n>` / `GL<n>`, own PRNG stream): `cfg x o r u` - 1-3 TRADED exchanges with one mock link each
+/// (2-4 instruments spread over them, an exchange with two instruments when k - t > x), the `executions` list in exchange
+/// order or reversed, per-backtest risk-free returns (0.05 / 0 / -0.02) and repeated ids, ONE `Arc` of constant arguments
+/// for every call of the case, a single backtest through `run_backtests`; a third of the cases also `tracked 1 1` (several
+/// traded + one tracked exchange). Plans trade instruments of EVERY traded exchange, early (so that fills are processed)
+/// and on the last Item.
+fn gen_cfg_case(out: &mut Out, rng: &mut Rng, id: &str, c: usize, runs: &[(usize, usize)], long_n: Option<usize>) {
+    out.case(id);
+    let t = if c % 3 == 2 { 1usize } else { 0 };
+    let k = rng.range(2, 4) as usize;
+    let nt = k - t;
+    // mostly several traded exchanges; x = 1 keeps the other dimensions (r, u) apart from it
+    let x = if c % 4 == 3 { 1 } else { rng.range(2, 3.min(nt.max(2)) as i64) as usize }.min(nt);
+    let o = rng.below(2);
+    let r = rng.below(3);
+    let u = rng.below(4);
+    if t > 0 {
+        out.line(format!("tracked {t} 1"));
+    }
+    out.line(format!("cfg {x} {o} {r} {u}"));
+    let n_items: i64;
+    match long_n {
+        Some(n) => {
+            let (rp, ro) = *rng.pick(&[(0usize, 0usize), (7, 3), (64, 17)]);
+            out.line(format!("longdata {n} {k} {rp} {ro} {} {}", *rng.pick(&[7usize, 13]), *rng.pick(&[1usize, 3])));
+            n_items = (0..n).filter(|pos| !(rp > 0 && pos % rp == ro)).count() as i64;
+        }
+        None => {
+            let len = if c % 3 == 1 { rng.range(200, 600) } else { rng.range(3, 40) } as usize;
+            n_items = len as i64;
+            let mut markers: Vec<&str> = Vec::new();
+            if nt > 0 {
+                markers.push("R");
+            }
+            if t > 0 {
+                markers.push("R1");
+            }
+            let mut toks: Vec<String> = Vec::new();
+            if rng.chance(30) {
+                toks.push(rng.pick(&markers).to_string());
+            }
+            for pos in 0..len {
+                // the first k Items give every instrument a price
+                let i = if pos < k { pos } else { rng.below(k as u64) as usize };
+                toks.push(format!("{i}:{}", 50 + 50 * i as i64 + rng.range(0, 3)));
+                if rng.chance(if len > 100 { 2 } else { 10 }) {
+                    toks.push(rng.pick(&markers).to_string());
+                }
+            }
+            out.line(format!("data {k} {}", toks.join(" ")));
+        }
+    }
+    let n_strats = rng.range(1, 3);
+    for s in 0..n_strats {
+        if s == 1 && rng.chance(50) {
+            out.line("strat -");
+            continue;
+        }
+        let mut line = String::from("strat");
+        let items = rng.range(2, 4);
+        for it in 0..items {
+            let trigger = match rng.below(4) {
+                0 => 1,
+                1 => n_items,
+                _ => rng.range(1, n_items.min(8)),
+            };
+            // the first two items: the last and the first traded instrument (= the last and the first traded exchange)
+            let i = match it {
+                0 => nt - 1,
+                1 => 0,
+                _ => rng.below(nt as u64) as usize,
+            };
+            let side = if rng.chance(70) { "B" } else { "S" };
+            let qty = if rng.chance(8) { 5000 } else { rng.range(1, 3) };
+            line.push_str(&format!(" {trigger}:{i}:{side}:{qty}"));
+        }
+        out.line(line);
+    }
+    for (m, w) in runs {
+        out.line(format!("run {m} {w}"));
+    }
+}
+
 fn generate(seed: u64, n_cases: usize, tier: &str) {
     let mut out = Out::new();
     let mut rng = Rng::new(seed);
@@ -1622,6 +1934,27 @@ fn generate(seed: u64, n_cases: usize, tier: &str) {
             let n = *trng.pick(&[257usize, 4097, 8193, 20000]);
             let runs = [(1usize, *trng.pick(&[0usize, 4])), (trng.range(2, 4) as usize, *trng.pick(&[1usize, 4, 8]))];
             gen_tracked_case(&mut out, &mut trng, &format!("TL{}_{n}", c + 1), start + n_short + c, &runs, Some(n));
+        }
+    }
+    // set-up shapes (own PRNG stream): several traded exchanges, order of `executions`, risk-free returns / ids, shared Arc
+    if n_cases > 0 {
+        let mut grng = Rng::new(seed ^ 0x4346_4732);
+        let (n_short, n_long) = if thorough { (24, 6) } else { (6, 2) };
+        let start = (seed as usize % 12) * (!thorough) as usize;
+        for c in 0..n_short {
+            let mut runs = vec![
+                (1usize, *grng.pick(&[0usize, 1, 4])),
+                (*grng.pick(&[2usize, 3, 4, 8]), *grng.pick(&[1usize, 4, 8])),
+            ];
+            if grng.chance(40) {
+                runs.push((*grng.pick(&[2usize, 3]), 0));
+            }
+            gen_cfg_case(&mut out, &mut grng, &format!("G{}", c + 1), start + c, &runs, None);
+        }
+        for c in 0..n_long {
+            let n = *grng.pick(&[257usize, 4097, 8193]);
+            let runs = [(1usize, *grng.pick(&[0usize, 4])), (grng.range(2, 4) as usize, *grng.pick(&[1usize, 4, 8]))];
+            gen_cfg_case(&mut out, &mut grng, &format!("GL{}_{n}", c + 1), start + n_short + c, &runs, Some(n));
         }
     }
     out.flush();
